@@ -99,6 +99,8 @@ def one_case(args):
             f.write(subdata)
         top_ents = [fm.make_entry('DATA', p, d, ['SHA256']) for p, d in sorted(files.items()) if '/' not in p]
         top_ents.append(fm.make_entry('MANIFEST', subname, subdata, ['SHA256']))
+        if case.get('longline'):
+            top_ents.append({'tag': 'IGNORE', 'path': 'ignored-' + 'x' * case['longline'], 'size': 0, 'ck': {}})
         toptext = fm.manifest_bytes(top_ents).decode('utf8')
         if case['was_signed']:
             toptext = full.clearsign(toptext, keyid=homes['a'])
@@ -124,16 +126,32 @@ def one_case(args):
             want_key = None
         if case['rename_top']:
             kw['compress_watermark'] = 10**6          # everything below it: top Manifest.gz is uncompressed
-        obs, ld = gem.call(gem.loader, os.path.join(root, topname), **kw)
         mem = None
-        if obs['end'] == 'ok':
-            obs, _ = gem.call(ld.update_entries_for_directory, '')
-        if obs['end'] == 'ok':
-            obs, _ = gem.call(ld.save_manifests)
-            try:
-                mem = abs_entries_from_objs(ld.loaded_manifests[ld.top_level_manifest_filename].entries)
-            except Exception:  # noqa
-                mem = None
+        if case.get('via') == 'cli':
+            argv = ['update', '--hashes', 'SHA256']
+            if case['signopt'] != 'unset':
+                argv.append('--sign' if case['signopt'] == 'on' else '--no-sign')
+            if 'openpgp_keyid' in kw:
+                argv += ['-k', kw['openpgp_keyid']]
+            if case['rename_top']:
+                argv += ['--compress-watermark', str(10**6)]
+            argv.append(root)
+            o = gem.run_cli(argv)
+            obs = {'end': o['end'], 'exc': o['exc']}
+            if o['end'] == 'ok' and o['status'] != 0:
+                msg = (o.get('errors') or [''])[0]
+                obs = {'end': 'fail', 'exc': 'OpenPGPSigningFailure' if msg.startswith('OpenPGP signing failed')
+                       else 'other:' + msg[:80]}
+        else:
+            obs, ld = gem.call(gem.loader, os.path.join(root, topname), **kw)
+            if obs['end'] == 'ok':
+                obs, _ = gem.call(ld.update_entries_for_directory, '')
+            if obs['end'] == 'ok':
+                obs, _ = gem.call(ld.save_manifests)
+                try:
+                    mem = abs_entries_from_objs(ld.loaded_manifests[ld.top_level_manifest_filename].entries)
+                except Exception:  # noqa
+                    mem = None
         signer.kill()
         # inspect what is on disk
         topfile = None
@@ -159,6 +177,12 @@ def one_case(args):
             prim = [w.split(' ')[-1] for w in st if w.startswith('VALIDSIG ')]
             top['signer_ok'] = want_key is not None and (want_key in fprs or want_key in prim)
             ae, ok = abs_entries_from_text(clear)
+            if case.get('via') == 'cli':
+                # no loader object to look into: the entries the file yields when it is read back
+                sg, body = fm.strip_signature(text)
+                mem, okm = abs_entries_from_text(body if sg is not None else '')
+                if not okm:
+                    mem = None
             top['entries_match'] = bool(ok and mem is not None and ae == mem)
         subs = []
         for dp, dn, fn in os.walk(root):
@@ -175,6 +199,7 @@ def one_case(args):
                     subs.append({'classes': [drv_framing.classify_line(l) for l in ls]})
         usable = case['key_usable'] is True and case['keyid'] != 'missing'
         return [{'signopt': case['signopt'], 'was_signed': case['was_signed'], 'key_usable': usable,
+                 'signable': not (case.get('longline') and case['longline'] + 16 > 16384),
                  'explicit_key': case['keyid'] != 'default', 'end': obs['end'], 'exc': obs['exc'],
                  'top': top, 'subs': subs, 'meta': dict(case)}]
     finally:
@@ -200,5 +225,17 @@ def all_cases(rng, thorough):
                                     cases.append({'signopt': signopt, 'was_signed': was_signed, 'keyid': keyid,
                                                   'key_usable': key_usable, 'rename_top': rename_top,
                                                   'subcomp': subcomp, 'hostile': hostile, 'sub_signed': sub_signed,
-                                                  'sort': rng.choice([None, True])})
-    return cases
+                                                  'sort': rng.choice([None, True]), 'via': 'api', 'longline': 0})
+    # through the command line (-k / --sign / --no-sign as the user gives them)
+    more = []
+    for c in cases:
+        if c['key_usable'] != 'locked' and not c['sub_signed'] and not c['rename_top'] and (thorough or rng.random() < 0.5):
+            more.append(dict(c, via='cli'))
+    # a line too long for gpg to sign intact (an IGNORE entry the update has to keep): only where the prior
+    # text is plain (such a text cannot have been loaded as signed)
+    for c in cases:
+        if not c['was_signed'] and c['key_usable'] is True and c['keyid'] != 'missing' and not c['sub_signed'] \
+                and (thorough or c['signopt'] == 'on' or rng.random() < 0.3):
+            more.append(dict(c, longline=rng.choice([16500, 19990, 20100, 30000]),
+                             via='api' if c['rename_top'] else rng.choice(['api', 'cli'])))
+    return cases + more
